@@ -1,7 +1,8 @@
 (* C03 — circuit evaluators return the true objective through every primitive wrapper.
    Property theorems only: each closed by `exact <lemma>` and followed by Print Assumptions.
-   Level: partial.  The quantum semantics (sem, compose, permute, relabel, wid, wmap, read, expect, counts_of) and
-   the aggregation functions of C14 are universally quantified; the two laws and "the raw primitive is a pointwise
+   Level: partial.  The quantum semantics (sem, compose, apply, permute, relabel, wid, wmap, read, expect, counts_of) and
+   the aggregation functions of C14 are universally quantified; the laws (composition means "first a, then the bound c":
+   sem (compose a c) p = apply c p (sem a p); layout invariance of expectation values and of measurements) and "the raw primitive is a pointwise
    oracle that agrees with the semantics" are premises.  That Qiskit satisfies them is tested by the harness, not proved.
    The classical instance (Eval/ClassicalInst.v) satisfies every premise, provably (C03_premises_satisfiable). *)
 From QV Require Import Eval.Pipeline Eval.Pipeline_proofs Eval.ClassicalInst Eval.ClassicalInst_proofs.
@@ -12,10 +13,11 @@ From QV Require Import Eval.Pipeline Eval.Pipeline_proofs Eval.ClassicalInst Eva
    "initial state followed by the bound circuit" measured on all qubits. *)
 Theorem C03_sampler_paths :
   forall (circ state obs params layout wiring dist outcome bitfun : Type)
-         (sem : circ -> params -> state) (compose : circ -> circ -> circ)
+         (sem : circ -> params -> state) (compose : circ -> circ -> circ) (apply : circ -> params -> state -> state)
          (permute : layout -> state -> state) (wid : circ -> wiring) (wmap : layout -> wiring -> wiring)
          (read : wiring -> state -> dist) (counts_of : Z -> dist -> list (outcome * Z))
          (agg_op : obs -> Q -> list (outcome * Q) -> Q) (agg_bits : bitfun -> Q -> list (outcome * Q) -> Q),
+    (forall a c p, sem (compose a c) p = apply c p (sem a p)) ->
     (forall pi w s, read (wmap pi w) (permute pi s) = read w s) ->
     forall sampler1 : spub circ params wiring -> counts outcome,
     (forall pub, sampler1 pub = ideal_sampler1 sem read counts_of pub) ->
@@ -24,18 +26,19 @@ Theorem C03_sampler_paths :
       stack_ok sem permute st -> shots <> 0%Z -> alpha_ok alpha = true ->
       (forall ob : obs,
           eval_operator_sampler compose wid agg_op (wrap_sampler wmap st (pointwise sampler1)) shots ob alpha init circuits pvals
-          = Ok (map (objective_op sem compose wid read counts_of agg_op shots ob alpha init) (combine circuits pvals)))
+          = Ok (map (objective_op sem compose apply wid read counts_of agg_op shots ob alpha init) (combine circuits pvals)))
       /\ (forall f : bitfun,
           eval_bitstring compose wid agg_bits (wrap_sampler wmap st (pointwise sampler1)) shots f alpha init circuits pvals
-          = Ok (map (objective_bits sem compose wid read counts_of agg_bits shots f alpha init) (combine circuits pvals))).
+          = Ok (map (objective_bits sem compose apply wid read counts_of agg_bits shots f alpha init) (combine circuits pvals))).
 Proof. exact @sampler_paths. Qed.
 Print Assumptions C03_sampler_paths.
 
 (* Estimator path, repaired transpiling wrapper (observables moved along the transpiled circuit's layout). *)
 Theorem C03_estimator_path :
   forall (circ state obs params layout : Type)
-         (sem : circ -> params -> state) (compose : circ -> circ -> circ)
+         (sem : circ -> params -> state) (compose : circ -> circ -> circ) (apply : circ -> params -> state -> state)
          (permute : layout -> state -> state) (relabel : layout -> obs -> obs) (expect : obs -> state -> Q),
+    (forall a c p, sem (compose a c) p = apply c p (sem a p)) ->
     (forall pi ob s, expect (relabel pi ob) (permute pi s) = expect ob s) ->
     forall estimator1 : epub circ obs params -> Q,
     (forall pub, estimator1 pub = ideal_estimator1 sem expect pub) ->
@@ -43,7 +46,7 @@ Theorem C03_estimator_path :
            (circuits : list circ) (pvals : list params),
       stack_ok sem permute st ->
       eval_estimator compose (wrap_estimator relabel false st (pointwise estimator1)) ob init circuits pvals
-      = Ok (map (objective_est sem compose expect ob init) (combine circuits pvals)).
+      = Ok (map (objective_est sem apply expect ob init) (combine circuits pvals)).
 Proof. exact @estimator_path. Qed.
 Print Assumptions C03_estimator_path.
 
@@ -52,28 +55,32 @@ Print Assumptions C03_estimator_path.
 Example C03_premises_satisfiable :
   (forall pi ob s, cexpect (crelabel pi ob) (cpermute pi s) = cexpect ob s)
   /\ (forall pi w s, cread (cwmap pi w) (cpermute pi s) = cread w s)
-  /\ (forall a c p, csem (ccompose a c) p = run_gates p (snd c) (csem a p))
+  /\ (forall a c p, csem (ccompose a c) p = capply c p (csem a p))
   /\ (forall pi swaps, sem_preserving csem cpermute (pm_route pi swaps))
   /\ sem_preserving csem cpermute pm_identity.
 Proof. exact (conj cexpect_relabel (conj cread_permute (conj csem_compose (conj pm_route_preserving pm_identity_preserving)))). Qed.
 Print Assumptions C03_premises_satisfiable.
 
 (* Hence, for the executable instance, nothing semantic is left as a premise. *)
+(* wf_call / wf_sampler_call / wf_table (Eval/ClassicalInst.v): the inputs on which the total functions of the instance
+   use no default (parameter indices and qubits in range, H only on fresh qubits, exact counts, full table). *)
 Theorem C03_classical_sampler_paths :
-  forall st shots alpha init circuits pvals,
+  forall st shots alpha np init circuits pvals,
     stack_ok csem cpermute st -> shots <> 0%Z -> alpha_ok alpha = true ->
+    wf_call np init circuits pvals = true -> wf_sampler_call shots init circuits pvals = true ->
     (forall ob, eval_operator_sampler ccompose cwid cagg_op (wrap_sampler cwmap st (pointwise csampler1)) shots ob alpha init circuits pvals
-                = Ok (map (objective_op csem ccompose cwid cread ccounts_of cagg_op shots ob alpha init) (combine circuits pvals)))
-    /\ (forall f, eval_bitstring ccompose cwid cagg_bits (wrap_sampler cwmap st (pointwise csampler1)) shots f alpha init circuits pvals
-                = Ok (map (objective_bits csem ccompose cwid cread ccounts_of cagg_bits shots f alpha init) (combine circuits pvals))).
+                = Ok (map (objective_op csem ccompose capply cwid cread ccounts_of cagg_op shots ob alpha init) (combine circuits pvals)))
+    /\ (forall f n, wf_table n f = true -> Forall (fun c : ccirc => fst c = n) circuits ->
+                  eval_bitstring ccompose cwid cagg_bits (wrap_sampler cwmap st (pointwise csampler1)) shots f alpha init circuits pvals
+                  = Ok (map (objective_bits csem ccompose capply cwid cread ccounts_of cagg_bits shots f alpha init) (combine circuits pvals))).
 Proof. exact classical_sampler_paths. Qed.
 Print Assumptions C03_classical_sampler_paths.
 
 Theorem C03_classical_estimator_path :
-  forall st ob init circuits pvals,
-    stack_ok csem cpermute st ->
+  forall st ob np init circuits pvals,
+    stack_ok csem cpermute st -> wf_call np init circuits pvals = true ->
     eval_estimator ccompose (wrap_estimator crelabel false st (pointwise cestimator1)) ob init circuits pvals
-    = Ok (map (objective_est csem ccompose cexpect ob init) (combine circuits pvals)).
+    = Ok (map (objective_est csem capply cexpect ob init) (combine circuits pvals)).
 Proof. exact classical_estimator_path. Qed.
 Print Assumptions C03_classical_estimator_path.
 
@@ -83,7 +90,7 @@ Print Assumptions C03_classical_estimator_path.
 Theorem C03_estimator_layout_refuted :
   stack_ok csem cpermute w_stack
   /\ eval_estimator ccompose (wrap_estimator crelabel true w_stack (pointwise cestimator1)) w_obs None [w_circ] [w_params] = Ok [1%Q]
-  /\ map (objective_est csem ccompose cexpect w_obs None) (combine [w_circ] [w_params]) = [(-1)%Q]
+  /\ map (objective_est csem capply cexpect w_obs None) (combine [w_circ] [w_params]) = [(-1)%Q]
   /\ eval_estimator ccompose (wrap_estimator crelabel false w_stack (pointwise cestimator1)) w_obs None [w_circ] [w_params] = Ok [(-1)%Q].
 Proof. exact estimator_layout_refuted. Qed.
 Print Assumptions C03_estimator_layout_refuted.
@@ -95,9 +102,11 @@ Print Assumptions C03_estimator_layout_refuted.
 Example C03_example_batch_sampler :
   stack_ok csem cpermute ex_stack
   /\ eval_operator_sampler ccompose cwid cagg_op (wrap_sampler cwmap ex_stack (pointwise csampler1)) 64 ex_obs (1 # 2)
-                           (Some ex_init) [ex_bell; ex_flip] [[]; [3%Z]] = Ok [(-3 # 2)%Q; (3 # 2)%Q]
-  /\ map (objective_op csem ccompose cwid cread ccounts_of cagg_op 64 ex_obs (1 # 2) (Some ex_init))
-         (combine [ex_bell; ex_flip] [[]; [3%Z]]) = [(-3 # 2)%Q; (3 # 2)%Q].
+                           (Some ex_init) [ex_bell; ex_flip] [[0%Z]; [3%Z]] = Ok [(-3 # 2)%Q; (3 # 2)%Q]
+  /\ map (objective_op csem ccompose capply cwid cread ccounts_of cagg_op 64 ex_obs (1 # 2) (Some ex_init))
+         (combine [ex_bell; ex_flip] [[0%Z]; [3%Z]]) = [(-3 # 2)%Q; (3 # 2)%Q]
+  /\ wf_call 1 (Some ex_init) [ex_bell; ex_flip] [[0%Z]; [3%Z]] = true
+  /\ wf_sampler_call 64 (Some ex_init) [ex_bell; ex_flip] [[0%Z]; [3%Z]] = true.
 Proof. exact example_batch_sampler. Qed.
 Print Assumptions C03_example_batch_sampler.
 
